@@ -61,3 +61,6 @@ def check(chk, repo):
         "'every class contributes a prototype' (follows from connectivity of the tree; graph theory)",
     ]
     chk.assumptions += ["Prim's algorithm is correct for any tie-breaking", "analyser normalisation is faithful"]
+    # premise: the weights that compete are the configured dissimilarity (flag, matrix and node pair of every selector)
+    from .c10 import check_walk_selectors
+    check_walk_selectors(rep, repo, 'model', 'SupervisedOPF', 'fit', set(), pre="WEIGHT:")
